@@ -269,7 +269,9 @@ Definition log_mismatch (c : case_t) : bool :=
   existsb (fun cc =>
      let '(_, ess, ocs) := run (init (c_cap c) (c_thr c)) (map fst (cc_ops cc)) in
      negb (list_eqb fsop_eqb (concat ess) (chan_log c (cc_key cc))) ||
-     negb (list_eqb outcome_eqb ocs (map snd (cc_ops cc)))) (c_chans c) ||
+     negb (list_eqb outcome_eqb ocs (map snd (cc_ops cc))) ||
+     (* the side conditions under which the theorems are stated hold for this history *)
+     negb (legal (c_cap c) (c_thr c) (map fst (cc_ops cc)))) (c_chans c) ||
   (* every recorded call belongs to a channel of the case *)
   existsb (fun co => negb (existsb (fun cc => N.eqb (cc_key cc) (fst co)) (c_chans c))) (c_glog c).
 
@@ -441,38 +443,7 @@ Definition allowed (tr : list sstate) (k : N) (i : nat) (upper : nat) : list sst
   let d := last (filter (fun j => negb (ch_dirty (nth j tr ([], [])) k)) idxs) O in
   map (fun j => nth j tr ([], [])) (seq d (S upper - d)).
 
-(* ---- windows of the known findings, recognised on the recorded log of one directory *)
-Record win := mkWin { wi_dir : bool; wi_meta : bool; wi_idxlen : N; wi_trunc : bool; wi_gc : bool; wi_torn : bool }.
-Definition win0 : win := mkWin false false 0 false false false.
-
-Definition win_step (w : win) (o : fsop) : win :=
-  match o with
-  | OMkdir => mkWin true false 0 false false false
-  | ORenameDir => win0
-  | ORename FMetaTmp FMeta => mkWin (wi_dir w) true (wi_idxlen w) (wi_trunc w) (wi_gc w) false
-  | OTrunc FIndex n => mkWin (wi_dir w) (wi_meta w) n (negb (N.eqb n (wi_idxlen w))) (wi_gc w) false
-  | OWrite _ FIndex off bs =>
-      mkWin (wi_dir w) (wi_meta w) (N.max (wi_idxlen w) (off + N.of_nat (length bs))) false false false
-  | ORename (FData _) (FTmp _) => mkWin (wi_dir w) (wi_meta w) (wi_idxlen w) (wi_trunc w) true false
-  | _ => w
-  end.
-
-Definition win_torn (w : win) (o : fsop) : win :=
-  match o with
-  | OWrite _ FIndex _ _ => mkWin (wi_dir w) (wi_meta w) (wi_idxlen w) (wi_trunc w) (wi_gc w) true
-  | _ => w
-  end.
-
-(* classes: 1 = channel directory without meta.json, 2 = between a length-changing index
-   Truncate and its WriteAt, 3 = torn index WriteAt, 4 = between GC's file swap and the
-   index rewrite, 0 = outside every known window *)
-Definition win_class (w : win) : nat :=
-  if wi_dir w && negb (wi_meta w) then 1%nat
-  else if wi_torn w then 3%nat
-  else if wi_trunc w then 2%nat
-  else if wi_gc w then 4%nat
-  else 0%nat.
-
+(* ---- windows of the known findings (Crash.win_step), per channel directory *)
 Definition wins := list (N * win).
 Definition win_of (ws : wins) (c : N) : win := match assoc ws c with Some w => w | None => win0 end.
 Definition wins_apply (ws : wins) (co : N * fsop) : wins := assoc_set ws (fst co) (win_step (win_of ws (fst co)) (snd co)).
